@@ -445,10 +445,52 @@ func ruleW2(c *Ctx, id string) {
 	remName := c.fn(id, "dir.RemName")
 	addNameDir := c.fn(id, "dir.AddNameDir")
 	remNameDir := c.fn(id, "dir.RemNameDir")
-	mk := c.fn(id, "dir.mkDcache")
-	if dc == nil || add == nil || del == nil || addName == nil || remName == nil || addNameDir == nil || remNameDir == nil || mk == nil {
+	apply := c.fn(id, "dir.Apply")
+	if dc == nil || add == nil || del == nil || addName == nil || remName == nil || addNameDir == nil || remNameDir == nil || apply == nil {
 		return
 	}
+	// the cache builder: a call of dir.Apply whose callback adds to the name cache - in mkDcache, or written
+	// out where the cold cache is noticed
+	type buildSite struct {
+		fn   *ssa.Function
+		call ssa.Instruction
+		cb   *ssa.Function
+		key  string
+	}
+	var builds []buildSite
+	isBuilderCb := map[*ssa.Function]bool{}
+	for _, fn := range P.RepoFuncs("dir") {
+		for _, call := range P.CallsIn(fn, funcIs(apply)) {
+			args := callCommon(call).Args
+			mc, isMC := args[len(args)-1].(*ssa.MakeClosure)
+			if !isMC {
+				continue
+			}
+			cb, _ := mc.Fn.(*ssa.Function)
+			if cb == nil || len(P.CallsIn(cb, funcIs(add))) == 0 {
+				continue
+			}
+			key := "dir.mkDcache"
+			if fn.Name() != "mkDcache" {
+				key = "dir." + ownerOf(fn).Name() + "(cache rebuild)"
+			}
+			builds = append(builds, buildSite{fn, call, cb, key})
+			isBuilderCb[cb] = true
+		}
+	}
+	if len(builds) == 0 {
+		R.Fail(id, "dir|cache builder", "?", "the name cache is rebuilt by a dir.Apply whose callback adds every entry", "no such call of dir.Apply in package dir")
+		return
+	}
+	isBuildSite := func(in ssa.Instruction) bool {
+		for _, b := range builds {
+			if b.call == in {
+				return true
+			}
+		}
+		return false
+	}
+	buildAlways := P.NewAlways(isBuildSite)
 	// who may call Add/Del and write Lastoff
 	for _, pr := range []struct {
 		f       *ssa.Function
@@ -464,7 +506,7 @@ func ruleW2(c *Ctx, id string) {
 					ok = true
 				}
 			}
-			if cs.Caller.Parent() == mk { // the enumeration callback
+			if isBuilderCb[cs.Caller] { // the enumeration callback
 				ok = true
 			}
 			R.Check(ok, id, FuncName(cs.Caller)+"|calls Dcache."+pr.f.Name(), P.Pos(cs.Instr.Pos()), "the name cache is updated only by AddName/RemName and the cache builder", "known updater", "a new updater of the name cache")
@@ -547,21 +589,16 @@ func ruleW2(c *Ctx, id string) {
 	}
 	check(addName, addNameDir, add, "Dcache.Add")
 	check(remName, remNameDir, del, "Dcache.Del")
-	// mkDcache enumerates with dir.Apply (whose limits it sets beyond reach), not with a paging scanner
-	apply := c.fn(id, "dir.Apply")
-	if apply != nil {
-		calls := P.CallsIn(mk, funcIs(apply))
-		okLim := len(calls) == 1
-		if okLim {
-			k, isk := constIntDeep(argN(calls[0], 4))
-			st, iss := constIntDeep(argN(calls[0], 2))
-			okLim = isk && k >= 100000000 && iss && st == 0
-		}
-		R.Check(okLim, id, "dir.mkDcache|enumerates the whole directory", P.Pos(mk.Pos()), "the name cache is rebuilt by dir.Apply from offset 0 with a size limit no directory can reach", "Apply(dip, op, 0, dip.Size, >=1e8, ...)", "the cache is rebuilt by a scanner that can stop early (page limits): names at the end of a large directory are missing after a restart or eviction")
+	// the builder enumerates with dir.Apply (whose limits it sets beyond reach), not with a paging scanner
+	for _, bs := range builds {
+		k, isk := constIntDeep(argN(bs.call, 4))
+		st, iss := constIntDeep(argN(bs.call, 2))
+		okLim := isk && k >= 100000000 && iss && st == 0
+		R.Check(okLim, id, bs.key+"|enumerates the whole directory", P.Pos(bs.call.Pos()), "the name cache is rebuilt by dir.Apply from offset 0 with a size limit no directory can reach", "Apply(dip, op, 0, dip.Size, >=1e8, ...)", "the cache is rebuilt by a scanner that can stop early (page limits): names at the end of a large directory are missing after a restart or eviction")
 	}
-	// the limits mkDcache passes cannot be reached: dircount = dip.Size and Apply charges less than
+	// the limits the builder passes cannot be reached: dircount = dip.Size and Apply charges less than
 	// DIRENTSZ bytes per entry; maxcount exceeds what NInode entries can cost
-	if apply != nil {
+	{
 		direntsz := constOfPkg(P, "dir", "DIRENTSZ")
 		maxname := constOfPkg(P, "dir", "MAXNAMELEN")
 		baggage := constOfPkg(P, "dir", "entryplus3Baggage")
@@ -613,30 +650,23 @@ func ruleW2(c *Ctx, id string) {
 				}
 			}
 		}
-		calls := P.CallsIn(mk, funcIs(apply))
-		sizeArg := false
-		var maxc int64 = -1
-		if len(calls) == 1 {
-			n, fl, _, _ := loadedField(argN(calls[0], 3))
-			sizeArg = n == c.V.Inode && fl == "Size"
-			maxc, _ = constIntDeep(argN(calls[0], 4))
+		for _, bs := range builds {
+			n, fl, _, _ := loadedField(argN(bs.call, 3))
+			sizeArg := n == c.V.Inode && fl == "Size"
+			maxc, _ := constIntDeep(argN(bs.call, 4))
+			okD := sizeArg && dirc >= 0 && dirc+maxname < direntsz
+			R.Check(okD, id, bs.key+"|dircount limit unreachable", P.Pos(bs.call.Pos()), fmt.Sprintf("the builder passes dircount = dip.Size (entries*%d) and Apply charges %d + len(name) <= %d < %d per entry, so the rebuild cannot stop early", direntsz, dirc, dirc+maxname, direntsz), "constant arithmetic on the code's own constants", fmt.Sprintf("Apply charges %d + len(name) per entry against dircount = dip.Size: with names of %d bytes that is >= %d per %d-byte slot, the rebuild of the name cache stops before the end of the directory (names at the end disappear after a restart or eviction)", dirc, maxname, direntsz, direntsz))
+			okM := maxc > 0 && baggage > 0 && maxc > 64+ninode*(baggage+maxname)
+			R.Check(okM, id, bs.key+"|maxcount limit unreachable", P.Pos(bs.call.Pos()), fmt.Sprintf("maxcount %d exceeds 64 + NInode(%d) * (%d + %d)", maxc, ninode, baggage, maxname), "constant arithmetic", "the rebuild of the name cache can stop at maxcount for a directory the inode table allows")
 		}
-		okD := sizeArg && dirc >= 0 && dirc+maxname < direntsz
-		R.Check(okD, id, "dir.mkDcache|dircount limit unreachable", P.Pos(mk.Pos()), fmt.Sprintf("mkDcache passes dircount = dip.Size (entries*%d) and Apply charges %d + len(name) <= %d < %d per entry, so the rebuild cannot stop early", direntsz, dirc, dirc+maxname, direntsz), "constant arithmetic on the code's own constants", fmt.Sprintf("Apply charges %d + len(name) per entry against dircount = dip.Size: with names of %d bytes that is >= %d per %d-byte slot, the rebuild of the name cache stops before the end of the directory (names at the end disappear after a restart or eviction)", dirc, maxname, direntsz, direntsz))
-		okM := maxc > 0 && baggage > 0 && maxc > 64+ninode*(baggage+maxname)
-		R.Check(okM, id, "dir.mkDcache|maxcount limit unreachable", P.Pos(mk.Pos()), fmt.Sprintf("maxcount %d exceeds 64 + NInode(%d) * (%d + %d)", maxc, ninode, baggage, maxname), "constant arithmetic", "the rebuild of the name cache can stop at maxcount for a directory the inode table allows")
 	}
-	// mkDcache: callback passes name/inum/off through unchanged
-	for _, b := range mk.Blocks {
-		for _, in := range b.Instrs {
-			if mc, ok := in.(*ssa.MakeClosure); ok {
-				cf := mc.Fn.(*ssa.Function)
-				for _, call := range P.CallsIn(cf, funcIs(add)) {
-					a := callCommon(call).Args
-					ok := len(a) == 4 && len(cf.Params) == 4 && a[1] == ssa.Value(cf.Params[1]) && a[2] == ssa.Value(cf.Params[2]) && a[3] == ssa.Value(cf.Params[3])
-					R.Check(ok, id, "dir.mkDcache|adds what Apply enumerates", P.Pos(call.Pos()), "the cache builder passes (name, inum, off) through unchanged", "parameters passed through", "the rebuilt cache differs from the directory")
-				}
-			}
+	// the builder's callback passes name/inum/off through unchanged
+	for _, bs := range builds {
+		cf := bs.cb
+		for _, call := range P.CallsIn(cf, funcIs(add)) {
+			a := callCommon(call).Args
+			ok := len(a) == 4 && len(cf.Params) == 4 && a[1] == ssa.Value(cf.Params[1]) && a[2] == ssa.Value(cf.Params[2]) && a[3] == ssa.Value(cf.Params[3])
+			R.Check(ok, id, bs.key+"|adds what Apply enumerates", P.Pos(call.Pos()), "the cache builder passes (name, inum, off) through unchanged", "parameters passed through", "the rebuilt cache differs from the directory")
 		}
 	}
 	// LookupName answers from the cache only after building it
@@ -661,7 +691,7 @@ func ruleW2(c *Ctx, id string) {
 			for _, b := range lookup.Blocks {
 				for _, s := range b.Succs {
 					if nilEdge(b, s) {
-						if !(MustAfter(lookup, callTo(mk), nil)(s.Instrs[0]) || callTo(mk)(s.Instrs[0])) || !reachableFrom(s.Instrs[0], call) {
+						if !(MustAfter(lookup, buildAlways.Instr, nil)(s.Instrs[0]) || buildAlways.Instr(s.Instrs[0])) || !reachableFrom(s.Instrs[0], call) {
 							okB = false
 						}
 					}
@@ -717,7 +747,25 @@ func ruleW3(c *Ctx, id string) {
 		fixed := int64(4 + 4 + 8 + 8 + 8 + 4*4)
 		R.Check(n == nblk && mkn == nblk && fixed+8*nblk <= inodesz, id, "inode.Inode|blks length", P.Pos(V.Decode.Pos()), fmt.Sprintf("Decode reads NBLKINO=%d pointers, MkRootInode allocates as many, and %d + 8*%d <= %d", nblk, fixed, nblk, inodesz), "constants agree", fmt.Sprintf("Decode reads %d, MkRootInode makes %d, NBLKINO=%d, slot %d", n, mkn, nblk, inodesz))
 	}
-	enc := c.fn(id, "dir.encodeDirEnt")
+	// the entry encoder: a function of its own, or written out in the functions that build an entry
+	enc := P.Func("dir.encodeDirEnt")
+	var encHolders []*ssa.Function
+	if enc == nil {
+		for _, fn := range P.RepoFuncs("dir") {
+			for _, b := range fn.Blocks {
+				for _, in := range b.Instrs {
+					if cal := staticCallee(in); cal != nil && cal.Name() == "NewEnc" && funcPkg(cal) != nil && strings.HasSuffix(funcPkg(cal).Path(), "tchajed/marshal") {
+						if len(encHolders) == 0 || encHolders[len(encHolders)-1] != fn {
+							encHolders = append(encHolders, fn)
+						}
+					}
+				}
+			}
+		}
+		if len(encHolders) == 0 {
+			c.R.Unresolved(id, "dir.encodeDirEnt")
+		}
+	}
 	dec := c.fn(id, "dir.decodeDirEnt")
 	direntsz, maxname := int64(-1), int64(-1)
 	if dp := P.Pkg("dir"); dp != nil {
@@ -729,12 +777,28 @@ func ruleW3(c *Ctx, id string) {
 		}
 	}
 	compareCodec(c, id, "dir.dirEnt", enc, dec, direntsz, true)
+	for _, h := range encHolders {
+		compareCodec(c, id, "dir.dirEnt@"+h.Name(), h, dec, direntsz, true)
+	}
 	R.Check(16+maxname <= direntsz && maxname > 0, id, "dir.dirEnt|name bound fits", "?", fmt.Sprintf("16 + MAXNAMELEN(%d) <= DIRENTSZ(%d)", maxname, direntsz), "constant arithmetic", "the longest accepted name overflows the entry")
 	// every caller of encodeDirEnt passes a name bounded by MAXNAMELEN (callers AddNameDir/RemNameDir are reached only through AddName/RemName, which test the length)
-	if enc != nil {
+	{
 		addName := P.Func("dir.AddName")
 		remName := P.Func("dir.RemName")
-		for _, cs := range P.CallersOf(enc) {
+		type encSite struct {
+			Caller *ssa.Function
+			Instr  ssa.Instruction
+		}
+		var encSites []encSite
+		if enc != nil {
+			for _, cs := range P.CallersOf(enc) {
+				encSites = append(encSites, encSite{cs.Caller, cs.Instr})
+			}
+		}
+		for _, h := range encHolders {
+			encSites = append(encSites, encSite{h, h.Blocks[0].Instrs[0]})
+		}
+		for _, cs := range encSites {
 			caller := cs.Caller
 			ok := true
 			why := ""
